@@ -52,6 +52,13 @@ pub(crate) fn reset() {
     CONTENT_SANITY_MAP.write().unwrap().clear()
 }
 
+/// Clear the sanity state, including a lock poisoned by a rejected (panicking) verification.
+#[cfg(mmtk_verif)]
+pub(crate) fn verif_reset() {
+    CONTENT_SANITY_MAP.clear_poison();
+    CONTENT_SANITY_MAP.write().unwrap().clear()
+}
+
 /// Checks whether the input global specifications fit within the current upper bound for all global metadata (limited by `metadata::constants::LOG_GLOBAL_SIDE_METADATA_WORST_CASE_RATIO`).
 ///
 /// Returns `Ok` if all global specs fit and `Err` otherwise.
